@@ -60,6 +60,9 @@ claim("C11", "normal form of the voicing predicate + index agreement and paramet
 claim("C10", "iterator typestate on the two cursors of the blending function + exact polynomial forms of every component store + callee/field identity of weight vectors and models, over rustc MIR",
       "Sound static decision that the blend is exactly sum_i w_i x_i over all voices for mean, variance and voicing weight (first pair consumed once, the rest zipped in order, no skipping adaptor, every component accumulated with its own weight), and that duration / stream / GV Gaussians use the duration / parameter / GV weight vector with the matching model of each voice. Vertex weights and identical voices follow. This code is never executed by the passing test suite.")
 
+claim("C04", "resolved dataflow from tuple positions / header fields to aggregate fields + exact polynomial forms of index bases and record lengths + control dependence on string-literal comparisons + derive key-table check, over rustc MIR",
+      "Sound static decision of every layout convention between the voice-file reader and its consumers: header field -> metadata field (same name; serde keys = upper-case field names), node-line token -> yes/no child -> tree walk direction, tree index +2/-2 and 1-based PDF ids, the mean|variance|msd split and the three PDF record lengths, little-endian f32 widened exactly to f64, option key -> condition field, and fast-matcher-then-regex wiring. NOT decided: the wildcard semantics inside the third-party jlabel-question crate and window text -> float parsing.")
+
 
 def main():
     props = [json.loads(l) for l in open(os.path.join(VERIF, "properties.jsonl"))]
